@@ -15,10 +15,12 @@
 From MptV Require Import Base.Mem C04.ArrayModel C04.ArraySpec C04.ArrayHeap C04.ArrayBuf C04.ArrayOps
   C04.ArrayRefine.
 
-(* One operation (ANY of the 16 operations of [op]: append, insert, typed set, slice,
-   reserve, clone/clear, reduce, in-place mpt_buffer_insert/cut/set, printf, string, new
-   buffer, flags, slice creation, slice write) through one handle, any state, any number
-   of handles, any sharing and flags: the model does not fault (no access outside a buffer), the invariant is
+(* One operation (ANY of the 24 operations of [op] -- the C API: append, insert, typed set,
+   slice, reserve, clone/clear, reduce, in-place mpt_buffer_insert/cut/set, printf, string,
+   new buffer, flags, slice creation, slice write; the C++ API of mpt++/array.cpp: array
+   copy/assignment, append, set(len,data), set(string value), array = slice, slice(array),
+   slice::shift, slice::trim -- array::insert, printf, string and slice::write are the C
+   operations) through one handle, any state, any number of handles, any sharing and flags: the model does not fault (no access outside a buffer), the invariant is
    kept, the values of ALL handles afterwards are exactly the specification's: the
    target holds the result of the vector operation, nothing else changed. *)
 Theorem C04_cow_step :
@@ -85,6 +87,15 @@ Example C04_example_slice_write :
   map (fun r => map (fun v => svec (snd v)) (abs (fst r)))
       (run (init 1 1) [OAppend 0 [1;2;3]%N; OMkSlice 1 0 1 2; OWrite 1 2 1 true [7;8]%N; OPrintf 0 [65]%N])
   = [ [[1;2;3]; []]; [[1;2;3]; [2;3]]; [[1;2;3]; [2;3;7;8]]; [[1;2;3]; [2;3;7;8]] ]%N.
+Proof. vm_compute. reflexivity. Qed.
+
+(* C++ entry points mixed with the C API in one history *)
+Example C04_example_cxx :
+  map (fun r => map (fun v => svec (snd v)) (abs (fst r)))
+      (run (init 2 1) [OXAppend 0 [1;2;3]%N; OXAssign 1 0; OXSet 0 [9]%N; OXMkSlice 2 1; OXShift 2 1;
+                       OAppend 1 [4]%N; OXAssignSlice 0 2])
+  = [ [[1;2;3]; []; []]; [[1;2;3]; [1;2;3]; []]; [[9]; [1;2;3]; []]; [[9]; [1;2;3]; [1;2;3]];
+      [[9]; [1;2;3]; [2;3]]; [[9]; [1;2;3;4]; [2;3]]; [[2;3]; [1;2;3;4]; [2;3]] ]%N.
 Proof. vm_compute. reflexivity. Qed.
 
 Example C04_example_refusal :
